@@ -101,6 +101,28 @@ def convert(route, src, sd, nd, fd, r, o):
             for i in range(shape[0]):
                 D[i] = src[i]
         return D
+    if route in ('setitem_col', 'setitem_blk', 'setitem_mask'):
+        # region stores of a fixed-point array (2-D sources): a column broadcast over the columns of the region (the generator makes
+        # every row of the source constant, so the broadcast column *is* the source), a block store in two halves, a masked store
+        assert len(shape) == 2
+        if route == 'setitem_col':
+            col = src[:, 0:1]
+            assert col.shape == (shape[0], 1)
+            if shape[1] > 1 and (src.n_word + shape[1]) % 2:
+                D[:, 0:1] = col
+                D[:, 1:] = col
+            else:
+                D[:, :] = col
+        elif route == 'setitem_blk':
+            h = max(1, shape[1] // 2)
+            D[:, :h] = src[:, :h]
+            if h < shape[1]:
+                D[:, h:] = src[:, h:]
+        else:
+            m = np.zeros(shape, dtype=bool); m[0, ::2] = True; m[1, 1::2] = True
+            D[m] = src[m]
+            D[~m] = src[~m]
+        return D
     raise ValueError(route)
 
 
@@ -191,6 +213,24 @@ def generate(tier, rng):
             continue
         yield 'CV %s %s %s %s %s %s %s %s' % (rng.choice(ROUTES), rng.choice(['raw', 'value']), shape_tok(sh, k), fm(x), fm(d),
                                               rng.choice(ROUNDS), rng.choice(OVFS), L(codes))
+    # region stores of 2-D fixed-point arrays: broadcast column, block halves, masks
+    for _ in range(600 if tier == 'quick' else 12000):
+        x = G.rand_format(rng, fmin=-4, fextra=4)
+        d = G.rand_format(rng, fmin=-4, fextra=4)
+        if abs(d[2] - x[2]) > 40:
+            continue
+        lo, hi = lims(x[0], x[1])
+        pick = lambda: max(lo, min(hi, rng.choice([lo, hi, 0, 1, lo + 1, hi - 1, rng.randint(lo, hi), rng.randint(lo, hi)])))
+        route = rng.choice(['setitem_col', 'setitem_col', 'setitem_blk', 'setitem_mask'])
+        w = rng.choice([2, 3])
+        if route == 'setitem_col':
+            a, b = pick(), pick()
+            codes = [a] * w + [b] * w          # constant rows: the broadcast first column is the source itself
+        else:
+            codes = [pick() for _ in range(2 * w)]
+        if any(abs(c) >= 2 ** 52 for c in codes):
+            continue
+        yield 'CV %s raw %s %s %s %s %s %s' % (route, shape_tok(2, 2 * w), fm(x), fm(d), rng.choice(ROUNDS), rng.choice(OVFS), L(codes))
     # 2-D sources (every memory layout, see make_src) whose rescaled codes need python integers (bit length + shift >= 63): the
     # wide path rebuilds the array element by element and must keep every element at its place
     for _ in range(400 if tier == 'quick' else 8000):
